@@ -44,11 +44,19 @@ ensures
     all_canonical(cells@) && antichain_set(cells@) && res is Ok ==> antichain(res->Ok_0@) && res->Ok_0@.no_duplicates(),   // [C08:compact.no-duplicates]
     all_canonical(cells@) && antichain_set(cells@) && max_class(cells@) && res is Ok ==> maximal(res->Ok_0@),     // [C10:compact.maximal]
     res is Ok ==> no_merge_possible(res->Ok_0@),                                                                   // [C10:compact.fixed-point]
+    res is Ok ==> (forall|s: Seq<u64>| sorted_strict(s) && s.to_set() == cells@.to_set() && no_merge_possible(s) ==> res->Ok_0@ == s),   // [C10:compact.fixed-point-returned-unchanged]
 //@at entry
 hide(enc); hide(dec); hide(decodable); hide(probe); hide(kids_ids); hide(valid); hide(is_desc); hide(anc);
 //@at before-return 1
 proof {
     lemma_empty_maximal();
+    assert forall|s: Seq<u64>| #[trigger] sorted_strict(s) && s.to_set() == cells@.to_set() implies Seq::<u64>::empty() == s by {
+        if s.len() > 0 {
+            assert(s.to_set().contains(s[0]));
+            assert(cells@.contains(s[0]));
+        }
+        assert(s =~= Seq::<u64>::empty());
+    }
 }
 //@at after "std_sort_unstable(&mut current_cells);"
 let ghost init = current_cells@;
@@ -75,6 +83,7 @@ invariant
     current_cells@.len() <= 0x0fffffffffffffff, // [C14:compact.length-bound]
     all_canonical(cells@) ==> refines(current_cells@, init),   // [C08:compact.pass-keeps-region]
     !changed ==> no_merge_possible(current_cells@),            // [C10:compact.last-pass-found-nothing]
+    no_merge_possible(init) ==> current_cells@ == init,        // [C10:compact.nothing-to-merge-nothing-changes]
 decreases current_cells@.len(), (if changed { 1int } else { 0int }),
 //@at after-let i
 proof {
@@ -88,6 +97,7 @@ invariant
     changed ==> result@.len() < i,              // [C14:compact.progress-when-changed]
     !changed ==> result@ == current_cells@.subrange(0, i as int),                                   // [C10:compact.unchanged-prefix]
     !changed ==> (forall|a: int| 0 <= a < i ==> !merge_test(current_cells@, a)),                     // [C10:compact.no-merge-so-far]
+    no_merge_possible(current_cells@) ==> !changed,                                                  // [C10:compact.merge-implies-test]
     all_canonical(cells@) ==> refines(comb(result@, current_cells@, i as int), current_cells@),   // [C08:compact.scan-keeps-region]
 decreases current_cells@.len() - i,
 //@at loop 2 body-start
@@ -116,6 +126,7 @@ proof {
 }
 //@at after-let parent
 proof {
+    assert(merge_test(current_cells@, i as int));
     lemma_dec_res(cell);
     if all_canonical(cells@) {
         lemma_comb_merge(result@, current_cells@, i as int, cell, parent);
@@ -139,6 +150,9 @@ proof {
 }
 //@at before-tail
 proof {
+    assert forall|s: Seq<u64>| sorted_strict(s) && s.to_set() == cells@.to_set() && no_merge_possible(s) implies current_cells@ == s by {
+        lemma_sorted_unique(s, init);
+    }
     if all_canonical(cells@) {
         lemma_compact_final(cells@, init, current_cells@);
         if antichain_set(cells@) && max_class(cells@) { lemma_maximal(current_cells@); }
